@@ -1,6 +1,6 @@
 //! C17 — YAML position tables (`OpenPositions`/`AdvancePositions`, `EndPositions`/
 //! `CompactEndPositions`, `YamlIndex::{from_parts, bp_to_text_pos, …}`) under arbitrary lookup
-//! histories.  Request: `C17 <op> <route> <text_len> <starts> <ends> <bp> <lookups> [CLASS:…]`
+//! histories.  Request: `C17 <op> <route> <text_len> <starts> <ends> <bp> <lookups>`
 //! (see lean/Driver/C17.lean for the grammar).
 use crate::rng::Rng;
 use crate::util::*;
@@ -13,8 +13,6 @@ pub fn tables() -> Vec<(&'static str, String)> {
     Vec::new()
 }
 
-const CLASS_TAG: &str = "CLASS:pos=len,len%64=0";
-
 fn parse_u32s(s: &str) -> Vec<u32> {
     if s == "-" {
         return Vec::new();
@@ -24,10 +22,6 @@ fn parse_u32s(s: &str) -> Vec<u32> {
 
 fn is_monotonic(v: &[u32]) -> bool {
     v.windows(2).all(|w| w[0] <= w[1])
-}
-
-fn in_class_req(starts: &[u32], text_len: usize) -> bool {
-    is_monotonic(starts) && text_len % 64 == 0 && starts.iter().any(|&p| p as usize == text_len)
 }
 
 enum Tables {
@@ -175,13 +169,11 @@ fn judge(
     bp: &[u64],
     bp_len: usize,
     o_dense: bool,
-    text_len: usize,
     items: &[&str],
     answers: &[(String, String)],
 ) -> String {
     let len = starts.len();
     let mut idx = 0usize;
-    let mut n_class = 0usize;
     let mut other: Option<String> = None;
     let end_exp = |i: usize| -> Exp {
         match ends.get(i) {
@@ -222,15 +214,7 @@ fn judge(
         if ok {
             continue;
         }
-        let in_class = match &ex {
-            Exp::Exact(Some(v)) => {
-                !o_dense && *v == text_len && text_len % 64 == 0 && matches!(kind, b'o' | b'b' | b'K' | b'N')
-            }
-            _ => false,
-        };
-        if in_class {
-            n_class += 1;
-        } else if other.is_none() {
+        if other.is_none() {
             let want = match &ex {
                 Exp::Exact(v) => opt(*v),
                 Exp::NoneOrOneOf(vs) => format!("-|{}", list(vs)),
@@ -239,10 +223,9 @@ fn judge(
             other = Some(format!("{it} got={a} want={want}"));
         }
     }
-    match (n_class, other) {
-        (_, Some(msg)) => format!("ORACLE-FAIL other {msg}"),
-        (0, None) => "ORACLE-OK".into(),
-        (n, None) => format!("ORACLE-FAIL class=pos=len,len%64=0 n={n}"),
+    match other {
+        Some(msg) => format!("ORACLE-FAIL {msg}"),
+        None => "ORACLE-OK".into(),
     }
 }
 
@@ -254,14 +237,6 @@ pub fn exec(a: &[&str]) -> String {
     let text_len = num(a[2]);
     let starts = parse_u32s(a[3]);
     let ends = parse_u32s(a[4]);
-    let tag = &a[7..];
-    let tagged = tag.len() == 1 && tag[0] == CLASS_TAG;
-    if !tag.is_empty() && !tagged {
-        return "BAD-TAG(impl)".into();
-    }
-    if tagged != in_class_req(&starts, text_len) {
-        return "BAD-TAG(impl)".into();
-    }
     let (bp_len, bp): (usize, Vec<u64>) = if route == "parts" {
         let (l, w) = a[5].split_once(':').expect("bp = len:words");
         (num(l), parse_words(w))
@@ -330,7 +305,7 @@ pub fn exec(a: &[&str]) -> String {
                 return "ORACLE-SKIP".into();
             }
             let r = run_all(&t, &items);
-            judge(&starts, &ends, &bp, bp_len, o_dense, text_len, &items, &r)
+            judge(&starts, &ends, &bp, bp_len, o_dense, &items, &r)
         }
         _ => "BAD-OP".into(),
     }
@@ -464,14 +439,13 @@ fn emit_case(
     let style = r.below(6);
     let lk = gen_lookups(r, n, n_lookups, bp_len, style);
     let lk_s = if lk.is_empty() { "-".to_string() } else { lk.join(",") };
-    let tag = if in_class_req(starts, text_len) { format!(" {CLASS_TAG}") } else { String::new() };
     let head = format!("{route} {text_len} {} {} {bp_s}", list(starts), list(ends));
     if with_build {
-        emit(format!("C17 build {head} -{tag}"));
+        emit(format!("C17 build {head} -"));
     }
     let op = if r.chance(1, 2) { "trace" } else { "get" };
-    emit(format!("C17 {op} {head} {lk_s}{tag}"));
-    emit(format!("C17 chk {head} {lk_s}{tag}"));
+    emit(format!("C17 {op} {head} {lk_s}"));
+    emit(format!("C17 chk {head} {lk_s}"));
 }
 
 pub fn gen(tier: Tier, r: &mut Rng, emit: &mut dyn FnMut(String)) {
